@@ -1158,7 +1158,9 @@ impl Sim {
                 .feat(format!("at:{}", short_loc(&loc))));
         }
         let now = self.server_tick();
+        let mut was_reset = false;
         if self.server_stopped_pending_reset && now < before {
+            was_reset = true;
             // The server was stopped: tick numbering restarts, old snapshots are meaningless.
             self.snaps.clear();
             self.vis_snaps.clear();
@@ -1169,7 +1171,7 @@ impl Sim {
             self.auth_snaps.insert(0, vec![false; self.clients.len()]);
             self.server_stopped_pending_reset = false;
         }
-        let is_tick = now != before && !(now < before);
+        let is_tick = now != before && !was_reset;
         self.last_frame_was_tick = is_tick;
         self.last_tick = now;
         if is_tick {
